@@ -23,7 +23,7 @@ WALL = {"quick": 900, "thorough": 7200}
 REQUIRED = {"strands_completed": 1500, "circular": 300, "json_circular": 100, "labelled_edges_copied": 300,
             "involution_checks": 1000, "unknown_rejected": 100, "single_nucleotide": 20, "end_to_end": 20,
             "end_to_end_via_seq_list": 5, "json_keys_not_from_zero": 50, "json_keys_not_consecutive": 50,
-            "json_resids_not_from_one": 50, "json_nodes_listed_out_of_order": 50, "json_keys_not_in_residue_order": 50, "sequences_wrapped_over_lines": 200, "headers_naming_dna_and_protein": 100, "txt_strands": 100,
+            "json_resids_not_from_one": 50, "json_nodes_listed_out_of_order": 50, "json_keys_not_in_residue_order": 50, "sequences_wrapped_over_lines": 200, "headers_naming_dna_and_protein": 100, "txt_strands": 100, "fasta_with_further_records": 30,
             "terminal_bases": 8}
 COMP = {"DA": "DT", "DT": "DA", "DG": "DC", "DC": "DG"}
 SWAP = {"5": "3", "3": "5", "": ""}
@@ -91,7 +91,12 @@ def make_strand(rng, workdir, res):
             bump(res, "headers_naming_dna_and_protein")
         if src == "fasta":
             p = Path(workdir) / "d.fasta"
-            p.write_text(">" + head + "\n" + body + "\n")
+            more = ""
+            if rng.random() < 0.25:
+                # a duplex file that lists the second chain as well: only the first record is the strand to complete
+                more = ">DNA second chain\n" + "".join(rng.choice("ACGT") for _ in range(rng.randint(1, 10))) + "\n"
+                bump(res, "fasta_with_further_records")
+            p.write_text(">" + head + "\n" + body + "\n" + more)
         else:
             p = Path(workdir) / "d.ig"
             p.write_text("; " + head + "\ntitle\n" + body + ("2" if circ else "1") + "\n")
